@@ -877,7 +877,8 @@ def _monitor_c04(case, out):
 
 
 C04_THEOREMS = ["fwd_first_window", "fwd_windows_tile", "rev_first_window", "rev_windows_tile", "rev_offset_brute_force",
-                "addbuf_moves_only_bpos", "loadbuf_ignores_bpos_partial", "nextchar_block_size_independent_partial"]
+                "addbuf_moves_only_bpos", "loadbuf_ignores_bpos_partial", "nextchar_block_size_independent_partial",
+                "writeFasta_keeps_residues_partial"]
 C02_THEOREMS = ["loadbuf_total", "nextchar_total", "nextchar_no_fault", "seebuf_total", "inmaps_agree"]
 C07_THEOREMS = ["findSubseq_absent", "findSubseq_out_of_range", "fetchSubseq_absent", "fetchSubseq_start_out_of_range", "findSubseq_cases",
                 "lands_on_start_line", "lands_on_start_residue", "lands_on_start_none", "bplrpl_sound_partial", "bplrpl_unsound_single_line", "bplrpl_unsound_at_init"]
@@ -1077,7 +1078,8 @@ def gen_stockholm_db(rng, tier="quick"):
             body += "s%d%s %s%s" % (j, "x" * rng.randrange(0, 4), "".join(rng.choice("ACGU-.acgu") for _ in range(alen)), eol)
         if rng.random() < 0.3:
             body += "#=GC SS_cons " + "." * alen + eol
-        body += "//" + eol
+        # the parser accepts an indented terminator (regression for 986143b: esl-afetch's regurgitate must accept it too)
+        body += rng.choice(["", "", "", "", "", "", "", "", " ", "\t  "]) + "//" + eol
         out.append(lead + body)
         norm = lambda t: t.replace("\r\n", "\n").encode("latin-1")
         ents.append((name, acc, [norm(body), norm(lead + body)]))
@@ -1141,6 +1143,9 @@ def gen_msa_as_seqs(rng):
     for a in range(rng.choice([1, 1, 2, 4])):
         nseq = rng.randrange(1, 7)
         alen = rng.choice([1, 5, 30, 60, 255, 256, 257, rng.randrange(1, 120)])
+        boundary = rng.random() < 0.45      # dealigned lengths on the allocation boundaries of the ESL_SQ (residues, ss, xr share salloc)
+        if boundary:
+            alen = rng.choice([260, 300, 520, 530, 700, 1100])
         names = []
         for j in range(nseq):
             nm = "".join(c for c in rand_name(rng, used) if c not in " \t/")
@@ -1149,9 +1154,16 @@ def gen_msa_as_seqs(rng):
         if rng.random() < 0.3:
             body += "#=GS %s DE some description\n#=GS %s AC ACC%d\n" % (names[0], names[0], a)
         seqs = ["".join(rng.choice("ACGUacgu-.") if rng.random() < 0.9 else rng.choice("-.") for _ in range(alen)) for _ in range(nseq)]
+        if boundary:
+            seqs = []
+            for j in range(nseq):
+                T = min(alen, rng.choice([253, 254, 255, 256, 257, 258, 510, 511, 512, 513, 514, 600, 1030, alen]))
+                gaps = set(rng.sample(range(alen), alen - T))
+                seqs.append("".join(rng.choice("-.") if k in gaps else rng.choice("ACGUacgu") for k in range(alen)))
         blocks = [(0, alen)] if rng.random() < 0.6 or alen < 4 else [(0, alen // 2), (alen // 2, alen)]
-        has_ss = [rng.random() < 0.3 for _ in names]          # the same annotation lines in every block, in the same order
-        has_xx = [rng.random() < 0.2 for _ in names]
+        has_ss = [rng.random() < (0.7 if boundary else 0.3) for _ in names]     # the same annotation lines in every block, in the same order
+        has_xx = [rng.random() < (0.5 if boundary else 0.2) for _ in names]
+        has_pp = [rng.random() < 0.3 for _ in names]
         has_cons = rng.random() < 0.3
         for lo, hi in blocks:
             for j, (nm, sq_) in enumerate(zip(names, seqs)):
@@ -1160,6 +1172,8 @@ def gen_msa_as_seqs(rng):
                     body += "#=GR %s SS %s\n" % (nm, "." * (hi - lo))
                 if has_xx[j]:
                     body += "#=GR %s XX %s\n" % (nm, "x" * (hi - lo))
+                if has_pp[j]:
+                    body += "#=GR %s PP %s\n#=GR %s SA %s\n" % (nm, "".join("*" if c not in "-." else "." for c in sq_[lo:hi]), nm, "".join("9" if c not in "-." else "-" for c in sq_[lo:hi]))
             if has_cons:
                 body += "#=GC SS_cons %s\n" % ("." * (hi - lo))
             body += "\n"
@@ -1176,7 +1190,7 @@ def msaseq_case(rng, idx):
     for s_ in range(rng.choice([1, 2])):
         abc = rng.choice(["text", "text", "rna", "dna"])
         ops.append("open fmt=%s abc=%s B=%d" % (rng.choice(["stockholm", "pfam", "unknown"]), abc, rng.choice([4096, 64, 7])))
-        call = rng.choice(["read", "readseq", "readinfo", "win", "block", "mixed"])
+        call = rng.choice(["read", "readseq", "readinfo", "readinfo", "win", "block", "mixed"])
         n = len(rows) + 1
         if call == "win":
             for nm, sq_ in rows:
@@ -1188,7 +1202,9 @@ def msaseq_case(rng, idx):
                 ops.append("reuse")
             ops.append("readwin C=0 W=10")
         elif call == "block":
-            ops += ["readblock list=%d maxres=-1 maxseq=%d init=0 long=0 ctx=0" % (rng.choice([1, 2, 8]), rng.choice([-1, 1, 3]))] * n
+            lng = 0      # (long-target mode is documented for unaligned DNA files only: "DNA, not an alignment")
+            ops += ["readblock list=%d maxres=%d maxseq=%d init=%d long=%d ctx=%d" % (
+                rng.choice([1, 2, 8]), rng.choice([-1, -1, 100, 256, 1000]) if lng else -1, rng.choice([-1, 1, 3]), rng.choice([0, 1]), lng, rng.choice([0, 5]))] * (n if not lng else 3 * n)
         elif call == "mixed":
             ops += [rng.choice(["read", "readinfo", "readseq"]) for _ in range(n)]
         else:
